@@ -48,6 +48,10 @@ pub struct KConsume;
 pub struct KChildren;
 pub struct KChildrenMore;
 pub struct KGenUsize;
+pub struct KDebug;
+pub struct KDisplay;
+pub struct KAsRef;
+pub struct KCloneOnly;
 pub struct KGrpA;
 pub struct KGrpR;
 pub struct KGrpB;
@@ -206,6 +210,32 @@ single!(KBasic, Basic, BASIC, call_basic, m, []);
 single!(KReadOnly, ReadOnly, READONLY, call_readonly, r, []);
 single!(KShapes, Shapes, SHAPES, call_shapes, m, []);
 single!(KIntRes, IntRes, INTRES, call_intres, m, []);
+single!(KDebug, core::fmt::Debug, FMTDEBUG, call_debug, r, []);
+single!(KDisplay, core::fmt::Display, FMTDISPLAY, call_display, r, []);
+single!(KAsRef, AsRef<u64>, ASREF, call_asref, r, []);
+
+/// `trait_obj!(x as Clone)`: nothing to call, but the object can be cloned and dropped.
+impl<O: Clone + 'static> DynObj for W<O, KCloneOnly> {
+    fn kind(&self) -> &'static str {
+        "KCloneOnly"
+    }
+    fn is_send(&self) -> bool {
+        true
+    }
+    fn menu(&self) -> Vec<Meth> {
+        Vec::new()
+    }
+    fn call(&mut self, _mi: usize, _a: &mut A) -> Ret {
+        Ret::NoSuchMethod
+    }
+    fn try_clone(&self) -> Option<Box<dyn DynObj>> {
+        Some(Box::new(W::<O, KCloneOnly>::new((*self.o).clone())))
+    }
+    fn cast(self: Box<Self>, _op: u8, _requested: u32, _mi: usize, _a: &mut A) -> (Option<Box<dyn DynObj>>, Ret) {
+        (Some(self), Ret::NoSuchMethod)
+    }
+}
+
 single!(KChildren, Children, CHILDREN, call_children, m, [
     O::Child: IntoDyn<KBasic>, O::RefChild: ReadOnly, O::MutChild: Basic,
     O::GChild: IntoDyn<KGrpA>, O::GRefChild: ReadOnly, O::GMutChild: Basic,
